@@ -95,6 +95,44 @@ def load_functions(repo, relfile, names, include=(), defines=(), std="c++11"):
 # values
 
 
+def load_records(repo, relfile, names, include=(), defines=(), std="c++11"):
+    """-> {name: CXXRecordDecl json} for user-defined structs/classes (fields, constructors with their member initialisers,
+    methods) of the translation unit"""
+    path = os.path.join(repo, relfile)
+    hh = hashlib.sha256(open(path, "rb").read()).hexdigest()
+    cache_dir = os.path.join(VERIF, "scratch", "ast-cache")
+    os.makedirs(cache_dir, exist_ok=True)
+    out = {}
+    for name in names:
+        key = hashlib.sha256((hh + relfile + "record:" + name + "|".join(include)).encode()).hexdigest()[:24]
+        cpath = os.path.join(cache_dir, key + ".json")
+        if os.path.exists(cpath):
+            with open(cpath) as fh:
+                out[name] = json.load(fh)
+            continue
+        cmd = ["clang++-14", "-fsyntax-only", "-Xclang", "-ast-dump=json", "-Xclang", f"-ast-dump-filter={name}", "-msse4.1", "-w", "-std=" + std]
+        cmd += ["-I" + os.path.join(repo, i) for i in include] + ["-D" + d for d in defines] + [path]
+        p = subprocess.run(cmd, capture_output=True, text=True)
+        dec = json.JSONDecoder()
+        txt, i, objs = p.stdout, 0, []
+        while i < len(txt):
+            while i < len(txt) and txt[i].isspace():
+                i += 1
+            if i >= len(txt):
+                break
+            o, i = dec.raw_decode(txt, i)
+            objs.append(o)
+        recs = [o for o in objs if o.get("kind") == "CXXRecordDecl" and o.get("name") == name and o.get("completeDefinition")]
+        if not recs:
+            raise Unsupported(f"no definition of record {name} in {relfile}")
+        tmp = f"{cpath}.{os.getpid()}.tmp"
+        with open(tmp, "w") as fh:
+            json.dump(recs[0], fh)
+        os.replace(tmp, cpath)
+        out[name] = recs[0]
+    return out
+
+
 class FV:
     """fvec4"""
 
@@ -236,6 +274,7 @@ class CInterp:
         self.ex = explorer
         self.functions = functions  # name -> FunctionDecl json (chosen variant)
         self.call_models = {}
+        self.records = {}
         self.loop_specs = {}
         self.dropped = set()
         self.depth = 0
@@ -353,6 +392,25 @@ class CInterp:
             if isinstance(a[0], FV):
                 return a[0].map2(a[1], core.smax)
             return core.smax(a[0], a[1])
+        if name == "sort" and len(a) == 2 and all(isinstance(x, VecIter) for x in a) and a[0].vec is a[1].vec:
+            # std::sort on a range of records, ordered by the record's own operator<.  Equal elements: libstdc++ sorts ranges of at
+            # most 16 elements by insertion sort, which keeps their order -- assumed (recorded) for the small ranges met here
+            import functools
+
+            vec = a[0].vec
+            seg = vec.items[a[0].i:a[1].i]
+            if len(seg) > 16:
+                raise Unsupported("std::sort of more than 16 elements (order of equal elements unspecified)")
+
+            def cmp(x, y):
+                if self.truth(self.call_record_method(x, "operator<", [y])):
+                    return -1
+                if self.truth(self.call_record_method(y, "operator<", [x])):
+                    return 1
+                return 0
+            seg.sort(key=functools.cmp_to_key(cmp))
+            vec.items[a[0].i:a[1].i] = seg
+            return 0
         if name in ("printf", "fprintf", "puts"):
             self.dropped.add(name)
             return 0
@@ -838,6 +896,78 @@ class CInterp:
                 return sizes[qt]
         raise Unsupported(f"sizeof/alignof of {n.get('argType')}")
 
+    # ---- user-defined records (struct Bridge ...) -----------------------------------------------------------------------
+    def copy_value(self, v):
+        """C++ value semantics for what the interpreter stores by reference"""
+        if isinstance(v, StructObj) and getattr(v, "record", None):
+            o = StructObj(v.name, **{k: self.copy_value(x) for k, x in v.fields.items()})
+            o.record = v.record
+            return o
+        if isinstance(v, StdVector):
+            return StdVector([self.copy_value(x) for x in v.items])
+        if isinstance(v, FV):
+            return FV(v.v)
+        return v
+
+    def construct_record(self, rname, args):
+        rec = self.records[rname]
+        if len(args) == 1 and isinstance(args[0], StructObj) and getattr(args[0], "record", None) == rname:
+            return self.copy_value(args[0])  # copy construction
+        ctors = [c for c in rec.get("inner", []) if c.get("kind") == "CXXConstructorDecl" and not c.get("isImplicit")]
+        ctors = [c for c in ctors if len([p for p in c.get("inner", []) if p.get("kind") == "ParmVarDecl"]) == len(args)]
+        if len(ctors) != 1:
+            raise Unsupported(f"no unique constructor of {rname} with {len(args)} arguments")
+        cd = ctors[0]
+        obj = StructObj(rname)
+        obj.record = rname
+        for f in rec.get("inner", []):
+            if f.get("kind") == "FieldDecl":
+                fq = f.get("type", {}).get("qualType", "")
+                obj.fields[f["name"]] = StdVector() if ("deque" in fq or "vector" in fq) else None
+        env = {"#names": {}, "#this": obj}
+        params = [c for c in cd.get("inner", []) if c.get("kind") == "ParmVarDecl"]
+        for p_, a in zip(params, args):
+            env[p_["id"]] = a
+            env["#names"][p_.get("name")] = p_["id"]
+        for ini in [c for c in cd.get("inner", []) if c.get("kind") == "CXXCtorInitializer"]:
+            fld = ini.get("anyInit", {}).get("name")
+            if fld is None:
+                raise Unsupported("base-class initialiser")
+            obj.fields[fld] = self.copy_value(self.rv(self.expr(ini["inner"][0], env)))
+        body = [c for c in cd.get("inner", []) if c.get("kind") == "CompoundStmt"]
+        if body:
+            prev, prevc = self.fname, self.loop_counter
+            self.fname, self.loop_counter = rname + "::" + rname, {}
+            try:
+                self.stmt(body[0], env)
+            finally:
+                self.fname, self.loop_counter = prev, prevc
+        return obj
+
+    def call_record_method(self, obj, mname, args):
+        rec = self.records[obj.record]
+        ms = [c for c in rec.get("inner", []) if c.get("kind") == "CXXMethodDecl" and c.get("name") == mname and not c.get("isImplicit")]
+        if len(ms) != 1:
+            raise Unsupported(f"method {obj.record}::{mname}")
+        md = ms[0]
+        env = {"#names": {}, "#this": obj}
+        for p_, a in zip([c for c in md.get("inner", []) if c.get("kind") == "ParmVarDecl"], args):
+            env[p_["id"]] = a
+            env["#names"][p_.get("name")] = p_["id"]
+        body = [c for c in md.get("inner", []) if c.get("kind") == "CompoundStmt"][0]
+        prev, prevc = self.fname, self.loop_counter
+        self.fname, self.loop_counter = obj.record + "::" + mname, {}
+        try:
+            self.stmt(body, env)
+        except CReturn as r:
+            return r.v
+        finally:
+            self.fname, self.loop_counter = prev, prevc
+        return None
+
+    def e_CXXThisExpr(self, n, env):
+        return env["#this"]
+
     def e_InitListExpr(self, n, env):
         return [self.rv(self.expr(c, env)) for c in n.get("inner", [])]
 
@@ -1011,6 +1141,11 @@ class CInterp:
                 return FV([args[0]] * 4)
             if not args:
                 return FV([None] * 4)
+        rname = qt.replace("const ", "").replace("struct ", "").strip()
+        if rname in getattr(self, "records", {}):
+            return self.construct_record(rname, args)
+        if "deque" in qt and not args:
+            return StdVector()
         if "iterator" in qt and len(args) == 1 and isinstance(args[0], (MapIter, VecIter)):
             a = args[0]
             return MapIter(a.m, a.keys, a.i) if isinstance(a, MapIter) else VecIter(a.vec, a.i)
@@ -1085,8 +1220,14 @@ class CInterp:
                 same = a0.m is b.m and a0.i == b.i
                 return same if op == "operator==" else not same
         if isinstance(a0, VecIter):
-            if op == "operator*":
+            if op in ("operator*", "operator->"):
                 return a0.vec.items[a0.i]
+            if op == "operator+" and len(args) == 2:
+                k = self.rv(args[1])
+                k = k if isinstance(k, int) else core.current().concrete_int(term(k))
+                if k is None:
+                    raise Unsupported("symbolic iterator offset")
+                return VecIter(a0.vec, a0.i + k)
             if op == "operator++":
                 new = VecIter(a0.vec, a0.i + 1)
                 args[0].set(new)
@@ -1157,8 +1298,20 @@ class CInterp:
             if name == "size":
                 return len(obj.items)
             if name == "push_back":
-                obj.items.append(args[0])
+                obj.items.append(self.copy_value(args[0]))
                 return None
+            if name == "push_front":
+                obj.items.insert(0, self.copy_value(args[0]))
+                return None
+            if name == "front":
+                return LRef(lambda: obj.items[0], lambda v: obj.items.__setitem__(0, v))
+            if name == "erase" and len(args) == 1 and isinstance(args[0], VecIter) and args[0].vec is obj:
+                del obj.items[args[0].i]
+                return VecIter(obj, args[0].i)
+            if name == "insert" and len(args) == 3 and all(isinstance(a, VecIter) for a in args) and args[0].vec is obj and args[1].vec is args[2].vec:
+                new = [self.copy_value(x) for x in args[1].vec.items[args[1].i:args[2].i]]
+                obj.items[args[0].i:args[0].i] = new
+                return VecIter(obj, args[0].i)
             if name == "clear":
                 obj.items.clear()
                 return None
